@@ -488,7 +488,8 @@ async fn episode(p: &EpParams) -> EpReport {
                         }
                     }
                     _ => {
-                        st.seq.advance(Duration::from_millis(rng.range(1, 3000))).await;
+                        let ms = if mt { rng.range(1, 5) } else { rng.range(1, 3000) };
+                        st.seq.advance(Duration::from_millis(ms)).await;
                     }
                 }
                 let live: Vec<String> = st.seq.m.subs[&s1].leases.keys().cloned().collect();
@@ -516,7 +517,10 @@ async fn episode(p: &EpParams) -> EpReport {
 
     // Deep check: past every deadline each subscription still redelivers exactly what the model holds.
     let latest = st.seq.m.subs.values().flat_map(|s| s.leases.values()).map(|l| l.hi).max().unwrap_or(0);
-    st.seq.advance_to(latest.max(st.seq.now()) + MS).await;
+    if !mt {
+        // (real-time runs cannot wait out the leases; they drain what is available now)
+        st.seq.advance_to(latest.max(st.seq.now()) + MS).await;
+    }
     let names: Vec<String> = st.seq.m.subs.keys().cloned().collect();
     for s in names {
         let mut guard = 0;
